@@ -229,7 +229,7 @@ META = {
    level_text='Proved in Coq for all inputs: a file entry verifies only if the object is a regular file of matching size whose content has every listed checksum '
               '(or is not newer than last_mtime with unchanged size); a stray object is a mismatch; IGNORE verifies; IGNORE matching is component-wise; the '
               'directory verdict is the conjunction of all per-path verdicts; for one directory exactly which objects are presented (C01_directory_is_its_items, C01_items_exactly: every visible listed file once, with its entry or none; '
-              'sub-directories with entries; every entry not met as a missing file); two entries for one path are compatible iff tags agree, sizes are equal and every hash carried by both has one value - a conflicting common hash is never forgiven (C01_duplicates_compatible_iff, C01_conflict_not_forgiven). The composition over the whole tree (Proofs/WalkComplete.v): every entry of the merged entry dictionary - visited directory or not, below an IGNOREd directory or not - is checked by verify_path against the object at its path, and every visible file of every directory reached from the start through sub-directories that are not hidden and have no entry is checked with an entry recorded for its path or as a stray file; a failing check is raised or handed to the handler, so a verification that reports nothing means all of them matched (C01_every_entry_is_checked, C01_every_found_file_is_checked, C01_silent_verification_means_match, C01_default_handler_success). The merged dictionary drops nothing: every entry other than DIST / TIMESTAMP of every loaded Manifest relevant for the directory whose path lies beneath it is represented by an entry with the same size and every one of its checksums, so every such Manifest entry is checked (C01_entry_dictionary_drops_nothing, C01_every_manifest_entry_is_checked; Proofs/EntryDict.v). Which Manifests are loaded is the subject of C02; that a second visit of one relative path cannot occur (distinct joined paths) is covered by the correspondence of whole-tree runs.',
+              'sub-directories with entries; every entry not met as a missing file); two entries for one path are compatible iff tags agree, sizes are equal and every hash carried by both has one value - a conflicting common hash is never forgiven (C01_duplicates_compatible_iff, C01_conflict_not_forgiven). The composition over the whole tree (Proofs/WalkComplete.v): every entry of the merged entry dictionary - visited directory or not, below an IGNOREd directory or not - is checked by verify_path against the object at its path, and every visible file of every directory reached from the start through sub-directories that are not hidden and have no entry is checked with an entry recorded for its path or as a stray file; a failing check is raised or handed to the handler, so a verification that reports nothing means all of them matched (C01_every_entry_is_checked, C01_every_found_file_is_checked, C01_silent_verification_means_match, C01_default_handler_success). The merged dictionary drops nothing: every entry other than DIST / TIMESTAMP of every loaded Manifest relevant for the directory whose path lies beneath it is represented by an entry with the same size and every one of its checksums, so every such Manifest entry is checked (C01_entry_dictionary_drops_nothing, C01_every_manifest_entry_is_checked; Proofs/EntryDict.v). A found file is checked against exactly the entry the merged dictionary records for its path, as a stray file only when it records none (C01_found_file_is_checked_against_its_entry, Proofs/Exact.v: a directory visit removes only the dictionaries of that directory and of directories below it, no relative path is visited twice - for trees with unique, non-empty, slash-free names). Which Manifests are loaded is the subject of C02.',
    level_note='About Model/{FS,Verify,Loader}.v; filesystem, hashlib and codecs are oracles; the model is the reference for verdict disagreements.'),
  'C02': dict(engine='coq+tree', design_ref='DESIGN.md section 5 C02',
    technique='Coq invariant proof over Manifest loading rounds + differential tamper matrix on realised trees',
